@@ -533,6 +533,12 @@ class CallMixin:
             return v
         view = self.iter_view(v, st, node)
         ns = z3.simplify(view.n)
+        if not z3.is_int_value(ns):
+            # tuple of symbolic length: an immutable sequence object (a list cell flagged as a tuple)
+            res = self.view_to_list(view, st)
+            lt = ListT(res.kind.target.elem)
+            lt.is_tuple = True
+            return V(Ref(lt), res.term)
         if z3.is_int_value(ns):
             self.cur_state = st
             vals = [view.get(z3.IntVal(i)) for i in range(ns.as_long())]
@@ -644,6 +650,9 @@ class CallMixin:
 
     def bi_isinstance(self, args, kw, st, node):
         v, c = args
+        if isinstance(v.kind, Opaque) and v.kind.sname == "Val" and c.kind == FN and c.term.tag in ("class", "builtin"):
+            nm = c.term.cls if c.term.tag == "class" else c.term.name
+            return V(BOOL, z3.Function("val_isinstance_" + nm, v.kind.sort(), z3.BoolSort())(v.term))
         if c.kind == FN and c.term.tag == "class":
             cls = c.term.cls
             if is_obj(v.kind):
